@@ -44,7 +44,7 @@ m = {
     }],
     "checks": checks,
     "not_applicable": na,
-    "notes": "Technique family: static analysis only. Exit codes: 0 held, 1 VIOLATION, 2 CHECK-ERROR (tree cannot be analysed). Known findings: /verif/known_findings.json.",
+    "notes": "Repairs of genuine defects in /repo (unguarded `fix:` commits): " + "; ".join(props.FIX_COMMITS) + ". Technique family: static analysis only. Exit codes: 0 held, 1 VIOLATION, 2 CHECK-ERROR (tree cannot be analysed). Known findings: /verif/known_findings.json.",
 }
 with open(os.path.join(HERE, "MANIFEST.json"), "w") as f:
     json.dump(m, f, indent=1)
